@@ -305,6 +305,8 @@ package ast
 //@   requires [node] IsExpr(expr) && TreeWF()
 //@   ensures [fresh C09] fresh(as(res, "*LitMatcher"))
 //@   ensures [kind C09] typeOf(res) == typeOf(expr)
+// the copy of a class does not share a backing array with the original (the optimizer appends to Chars/Ranges/UnicodeClasses in place)
+//@   ensures [no-shared-backing C09] is(res, "*CharClassMatcher") ==> fresh(bid(as(res, "*CharClassMatcher").Chars)) && fresh(bid(as(res, "*CharClassMatcher").Ranges)) && fresh(bid(as(res, "*CharClassMatcher").UnicodeClasses))
 //@   ensures [wf C09 C13] IsExpr(res) && TreeWF()
 //@   loop#1 invariant [wf] 0 <= i && TreeWF() && forall k int :: 0 <= k && k < len(alts) ==> IsExpr(alts[k])
 //@   loop#2 invariant [wf] 0 <= i && TreeWF() && forall k int :: 0 <= k && k < len(exprs) ==> IsExpr(exprs[k])
@@ -316,6 +318,11 @@ package ast
 //@   ensures [wf C09 C13] IsExpr(res) && TreeWF() && OptOK(r)
 // only rules that refer to no other rule are inlined (this is also why the rewriting terminates)
 //@   before cloneExpr assert [leaf-only C09 C13] !has(r.ruleUsesRules, ruleRef.Name.Val)
+// the bookkeeping the leaf test relies on: a rule's entry in ruleUsesRules is dropped only when its set of
+// referenced rules has become empty (a rule that still refers to others is never taken for a leaf), and
+// nothing is ever added
+//@   ensures [uses-dropped-only-when-empty C13] forall k string :: {has(r.ruleUsesRules, k)} old(has(r.ruleUsesRules, k)) && !has(r.ruleUsesRules, k) ==> len(old(r.ruleUsesRules[k])) == 0
+//@   ensures [uses-only-shrinks C13] forall k string :: {has(r.ruleUsesRules, k)} has(r.ruleUsesRules, k) ==> old(has(r.ruleUsesRules, k)) && r.ruleUsesRules[k] == old(r.ruleUsesRules[k])
 //@   safety C13
 
 // The optimize visitor. Its slice surgery on aliased backing arrays is outside the value model of
@@ -331,6 +338,19 @@ package ast
 //@   at "c1.Chars = append(c1.Chars, []rune(l0.Val)...)" assert [merge-lit-class C09] !c1.Inverted && l0.IgnoreCase == c1.IgnoreCase
 //@   at "c0.Chars = append(c0.Chars, []rune(l1.Val)...)" assert [merge-class-lit C09] !c0.Inverted && c0.IgnoreCase == l1.IgnoreCase
 //@   at "l0.Val += l1.Val" assert [concat-lit C09] l0.IgnoreCase == l1.IgnoreCase
+// removing an unused rule releases EVERY rule it referred to, whatever the iteration order of the maps (C19:
+// otherwise which dead rules survive depends on the run)
+//@   at "r.optimized = true"#3 assert [released C19] forall k string :: {has(r.ruleUsedByRules, k)} has(r.ruleUsedByRules, k) ==> !has(r.ruleUsedByRules[k], rule.Name.Val)
+//@   loop#2 invariant [ctx] r != nil && r.ruleUsedByRules != nil
+//@   loop#3 invariant [released-so-far C19] r != nil && r.ruleUsedByRules != nil
+//@     | && (forall k string :: {has(r.ruleUsedByRules, k)} has(r.ruleUsedByRules, k) ==> sel(dom3, k))
+//@     | && (forall k string :: {has(r.ruleUsedByRules, k)} sel(visited3, k) && has(r.ruleUsedByRules, k) ==> !has(r.ruleUsedByRules[k], rule.Name.Val))
+//@   loop#4 invariant [released-here C19] r != nil && r.ruleUsedByRules != nil
+//@     | && (forall k2 string :: {has(r.ruleUsedByRules, k2)} has(r.ruleUsedByRules, k2) ==> sel(dom3, k2))
+//@     | && (forall k2 string :: {has(r.ruleUsedByRules, k2)} sel(visited3, k2) && k2 != k && has(r.ruleUsedByRules, k2) ==> !has(r.ruleUsedByRules[k2], rule.Name.Val))
+//@     | && (has(r.ruleUsedByRules, k) ==> r.ruleUsedByRules[k] == v)
+//@     | && (forall x string :: {has(v, x)} has(v, x) ==> sel(dom4, x))
+//@     | && (sel(visited4, rule.Name.Val) ==> !has(v, rule.Name.Val))
 
 //@ func (r *grammarOptimizer) optimizeRules(exprs []Expression) (res []Expression)
 //@   requires [node] OptOK(r) && TreeWF() && forall k int :: 0 <= k && k < len(exprs) ==> IsExpr(exprs[k])
@@ -383,4 +403,153 @@ package ast
 //@     | && (forall u string :: {has(unicodeClassesMap, u)} has(unicodeClassesMap, u) == (exists k int :: 0 <= k && k < idx3 && chr.UnicodeClasses[k] == u))
 //@     | && (forall k int :: {unicodeClasses[k]} 0 <= k && k < len(unicodeClasses) ==> has(unicodeClassesMap, unicodeClasses[k])) && (forall u string :: {has(unicodeClassesMap, u)} has(unicodeClassesMap, u) ==> HasStr(unicodeClasses, u))
 //@   loop#5 invariant [val] i % 2 == 0 && 0 <= i && len(chr.Ranges) % 2 == 0
+//@   safety C13
+
+// CharClassMatcher.parse (C04): the Unicode class names handed to the generated code are exactly the
+// names written between the braces of \p{...} (or the single letter after \p)
+// strings.Reader (assumed contract, from its source): a position i in the string s; ReadRune either
+// advances by the width of the rune it returns or, at the end, fails without moving.
+//@ extern strings.NewReader(s string) (rd *strings.Reader)
+//@   ensures rd != nil && fresh(rd) && rd.s == s && rd.i == 0
+//@ extern strings.Reader.ReadRune(rd *strings.Reader) (ch rune, size int, rerr error)
+//@   requires rd != nil
+//@   modifies rd.i, rd.prevRune
+//@   ensures [eof-iff] (rerr != nil) == (old(rd.i) >= len(rd.s))
+//@   ensures [progress] rerr == nil ==> size >= 1 && rd.i == old(rd.i) + size && rd.i <= len(rd.s)
+//@   ensures [eof] rerr != nil ==> rd.i == old(rd.i) && size == 0 && ch == 0
+// What is decided about the class-name extraction: the name handed on is made of the runes read between
+// the braces and of nothing else (e.g. nothing left over from an earlier escape); every loop terminates
+// (C13: the front-end accepts, with an error, class texts whose \p{ is never closed).
+//@ func (c *CharClassMatcher) parse()
+//@   requires [node] c != nil
+//@   modifies c.IgnoreCase, c.Inverted, c.Chars, c.Ranges, c.UnicodeClasses, all strings.Reader.i, all strings.Reader.prevRune
+//@   nosafety
+//@   at "for {" ghost clsName = ""
+//@   at "for {" ghost rd0 = r.i
+//@   at "for i := 0; i < consumeN; i++ {" ghost rd3 = r.i
+//@   at "buf.WriteRune(rn)" ghost clsName = clsName + strOfRune(rn)
+//@   loop#1 invariant [reader] r != nil && 0 <= r.i && r.i <= len(r.s)
+//@   loop#1 decreases [terminates C13] len(r.s) - r.i
+//@   loop#2 invariant [name-so-far C04] buf == clsName
+//@   loop#2 invariant [reader] r != nil && rd0 <= r.i && r.i <= len(r.s)
+//@   loop#2 decreases [terminates C13] len(r.s) - r.i
+//@   loop#3 invariant [reader] r != nil && rd3 <= r.i && r.i <= len(r.s) && 0 <= i
+//@   loop#3 decreases [terminates C13] consumeN - i
+//@   at "c.UnicodeClasses = append(c.UnicodeClasses, buf.String())" assert [class-name-exact C04] buf == clsName
+
+// Pos(): the position recorded by the front-end (needed by the emission contracts of the builder)
+//@ func (g *Grammar) Pos() (pos Pos)
+//@   requires [node] g != nil
+//@   pure
+//@   ensures [pos] pos == g.p
+//@   safety C13
+//@ func (r *Rule) Pos() (pos Pos)
+//@   requires [node] r != nil
+//@   pure
+//@   ensures [pos] pos == r.p
+//@   safety C13
+//@ func (c *ChoiceExpr) Pos() (pos Pos)
+//@   requires [node] c != nil
+//@   pure
+//@   ensures [pos] pos == c.p
+//@   safety C13
+//@ func (r *RecoveryExpr) Pos() (pos Pos)
+//@   requires [node] r != nil
+//@   pure
+//@   ensures [pos] pos == r.p
+//@   safety C13
+//@ func (a *ActionExpr) Pos() (pos Pos)
+//@   requires [node] a != nil
+//@   pure
+//@   ensures [pos] pos == a.p
+//@   safety C13
+//@ func (t *ThrowExpr) Pos() (pos Pos)
+//@   requires [node] t != nil
+//@   pure
+//@   ensures [pos] pos == t.p
+//@   safety C13
+//@ func (s *SeqExpr) Pos() (pos Pos)
+//@   requires [node] s != nil
+//@   pure
+//@   ensures [pos] pos == s.p
+//@   safety C13
+//@ func (l *LabeledExpr) Pos() (pos Pos)
+//@   requires [node] l != nil
+//@   pure
+//@   ensures [pos] pos == l.p
+//@   safety C13
+//@ func (a *AndExpr) Pos() (pos Pos)
+//@   requires [node] a != nil
+//@   pure
+//@   ensures [pos] pos == a.p
+//@   safety C13
+//@ func (n *NotExpr) Pos() (pos Pos)
+//@   requires [node] n != nil
+//@   pure
+//@   ensures [pos] pos == n.p
+//@   safety C13
+//@ func (z *ZeroOrOneExpr) Pos() (pos Pos)
+//@   requires [node] z != nil
+//@   pure
+//@   ensures [pos] pos == z.p
+//@   safety C13
+//@ func (z *ZeroOrMoreExpr) Pos() (pos Pos)
+//@   requires [node] z != nil
+//@   pure
+//@   ensures [pos] pos == z.p
+//@   safety C13
+//@ func (o *OneOrMoreExpr) Pos() (pos Pos)
+//@   requires [node] o != nil
+//@   pure
+//@   ensures [pos] pos == o.p
+//@   safety C13
+//@ func (r *RuleRefExpr) Pos() (pos Pos)
+//@   requires [node] r != nil
+//@   pure
+//@   ensures [pos] pos == r.p
+//@   safety C13
+//@ func (s *StateCodeExpr) Pos() (pos Pos)
+//@   requires [node] s != nil
+//@   pure
+//@   ensures [pos] pos == s.p
+//@   safety C13
+//@ func (a *AndCodeExpr) Pos() (pos Pos)
+//@   requires [node] a != nil
+//@   pure
+//@   ensures [pos] pos == a.p
+//@   safety C13
+//@ func (n *NotCodeExpr) Pos() (pos Pos)
+//@   requires [node] n != nil
+//@   pure
+//@   ensures [pos] pos == n.p
+//@   safety C13
+//@ func (l *LitMatcher) Pos() (pos Pos)
+//@   requires [node] l != nil
+//@   pure
+//@   ensures [pos] pos == l.p
+//@   safety C13
+//@ func (c *CharClassMatcher) Pos() (pos Pos)
+//@   requires [node] c != nil
+//@   pure
+//@   ensures [pos] pos == c.p
+//@   safety C13
+//@ func (a *AnyMatcher) Pos() (pos Pos)
+//@   requires [node] a != nil
+//@   pure
+//@   ensures [pos] pos == a.p
+//@   safety C13
+//@ func (c *CodeBlock) Pos() (pos Pos)
+//@   requires [node] c != nil
+//@   pure
+//@   ensures [pos] pos == c.p
+//@   safety C13
+//@ func (i *Identifier) Pos() (pos Pos)
+//@   requires [node] i != nil
+//@   pure
+//@   ensures [pos] pos == i.p
+//@   safety C13
+//@ func (s *StringLit) Pos() (pos Pos)
+//@   requires [node] s != nil
+//@   pure
+//@   ensures [pos] pos == s.p
 //@   safety C13
